@@ -73,12 +73,16 @@ func (mi *MessageInfo) lazyUnmarshal(p pointer, num protoreflect.FieldNumber) {
 	// The actual pointer in the message can not be set until the whole struct is filled in, otherwise we will have races.
 	// Create another pointer and set it atomically, if we won the race and the pointer in the original message is still nil.
 	fp := pointerOfValue(reflect.New(f.ft))
+	k := 0
 	if multipleEntries != nil {
 		for _, entry := range multipleEntries {
 			mi.unmarshalField(lazy.Buffer()[entry.Start:entry.End], fp, f, lazy, lazy.UnmarshalFlags())
+			verifhook.LazyEntry(p.p, int32(num), fp.Elem().p, k, len(multipleEntries))
+			k++
 		}
 	} else {
 		mi.unmarshalField(lazy.Buffer()[start:end], fp, f, lazy, lazy.UnmarshalFlags())
+		verifhook.LazyEntry(p.p, int32(num), fp.Elem().p, k, 1)
 	}
 	verifhook.LazyDecoded(p.p, int32(num), fp.Elem().p)
 	p.Apply(f.offset).AtomicSetPointerIfNil(fp.Elem())
